@@ -2,4 +2,4 @@
 From Coq Require Import Extraction ExtrOcamlBasic ZArith NArith.
 From T38 Require Import Model.Cursor Model.Knn.
 Extraction Language OCaml.
-Extraction "model.ml" Z.add Z.of_N Z.to_N Nat.add knn nearby_query pop_min eff_limit.
+Extraction "model.ml" Z.add Z.of_N Z.to_N Nat.add knn nearby_query pop_min list_push heap_push heap_pop eff_limit.
